@@ -27,6 +27,8 @@ struct RunRec {
     ops: Vec<Op>,
     lowers: Vec<usize>,
     alt_root: Option<String>,
+    /// line index of the trait-call log taken right after the INITIAL snapshot of the target
+    init_snap_log: usize,
 }
 struct StepIdx {
     op: usize,
@@ -235,7 +237,9 @@ pub fn run(o: &Opts) -> Report {
                     Some(_) => format!("snapt {} {} {}", f, uni, uni_args("", &["/outside", "/outside/x", "/outside/f", "/r", "/r/s"])),
                 }
             };
+            push(&mut world, &mut lines, &mut impl_out, "clearlog".into());
             let (_, s0) = push(&mut world, &mut lines, &mut impl_out, format!("snap {} {}", target, uni));
+            let (init_snap_log, _) = push(&mut world, &mut lines, &mut impl_out, "log".into());
             let mut snap: BTreeMap<String, Obs> = parse_snap(&s0);
             // initial lower snapshots
             let mut prev_lower: Vec<usize> = vec![];
@@ -307,7 +311,7 @@ pub fn run(o: &Opts) -> Report {
                 rep.sample(format!("[{}] {}", cfg_kind, ops.iter().take(8).map(|o| o.describe()).collect::<Vec<_>>().join("; ")));
             }
             let _ = prev_lower;
-            runs.push(RunRec { cfg: cfg_kind.to_string(), lines, impl_out, steps, ops, lowers, alt_root });
+            runs.push(RunRec { cfg: cfg_kind.to_string(), lines, impl_out, steps, ops, lowers, alt_root, init_snap_log });
         }
     }
     world.reset();
@@ -336,6 +340,28 @@ pub fn run(o: &Opts) -> Report {
         }
         let mut dead = false;
         let mut corr_dead = false;
+        // the very first observation of a pre-populated overlay (the upper layer may already hold
+        // bookkeeping): observers only, so no layer may receive a mutating call
+        if prop == "C08" {
+            for t in imp(r.init_snap_log).split(' ').filter(|t| !t.is_empty()) {
+                let mut it = t.splitn(3, ':');
+                let tag = it.next().unwrap_or("?");
+                let method = it.next().unwrap_or("?").trim_start_matches("Vfs.Method.").to_string();
+                let path = dec_str(it.next().unwrap_or("s"));
+                if is_mutating(&method) {
+                    rep.fail(Fail {
+                        oracle: "prop".into(),
+                        signature: format!("ovl:initial-snapshot:observer-issued-mutating-call:{}", method),
+                        what: format!("[{}] while the pre-populated overlay was only being observed (exists/metadata/read_dir/open_file on the universe), layer {} received the mutating call {}({:?})", r.cfg, tag, method, path),
+                        script: script_upto(r.init_snap_log),
+                        impl_out: imp(r.init_snap_log).clone(),
+                        model_out: String::new(),
+                    });
+                    dead = true;
+                    break;
+                }
+            }
+        }
         for (si, st) in r.steps.iter().enumerate() {
             if dead {
                 break;
